@@ -45,7 +45,7 @@ of head and body, whole / 2-segment / 1-byte segmentations, each followed by fur
 segment or after the exchange; (C) seeded random sequences of 2-7 requests over two authorities with early-dropped bodies \
 (drop after k bytes), keep/close, limit in {0,1,2,3}, idle/lifetime eviction; (D) concurrent batches above the limit; \
 (E) header-level framing variants (duplicate/signed/garbage content-length, TE+CL, TE identity/gzip/twice, connection \
-header variants, chunk-size overflow and syntax errors, 70 kB bodies). A case is non-trivial if at least one response head \
+header variants, chunk-size overflow and syntax errors, 70 kB bodies); (F) 1xx/204/304 responses carrying Content-Length or chunked coding with the announced bytes absent, partial or complete. A case is non-trivial if at least one response head \
 was delivered to the client; distinct = distinct (case, output) hashes";
 
 // ---------------------------------------------------------------------------------------------
@@ -645,6 +645,9 @@ struct RefMsg {
     conn_keep_alive: bool,
     /// `Upgrade: websocket` on a response that is not 101
     upgrade_ws_non101: bool,
+    /// 1xx / 204 / 304 (no body, RFC 7230 §3.3.3 rule 1) that nevertheless carries Content-Length
+    /// or Transfer-Encoding
+    bodiless_with_framing: bool,
 }
 
 #[derive(Debug, Clone)]
@@ -746,6 +749,7 @@ fn reference(stream: &[u8], head_request: bool) -> RefRead {
     }
     let version11 = status_line[7] == b'1';
     let status101 = &status_line[9..12] == b"101";
+    let bodiless_status = status_line[9] == b'1' || &status_line[9..12] == b"204" || &status_line[9..12] == b"304";
     let mut upgrade_ws = false;
     let mut cl: Vec<Vec<u8>> = Vec::new();
     let mut te: Vec<Vec<u8>> = Vec::new();
@@ -773,6 +777,9 @@ fn reference(stream: &[u8], head_request: bool) -> RefRead {
     } else if status101 {
         // not an HTTP body: whatever follows belongs to the upgraded protocol, up to the close
         Framing::UntilClose
+    } else if bodiless_status {
+        // "cannot contain a message body", whatever the header fields say
+        Framing::NoBody
     } else if version11 && !te.is_empty() {
         if te.len() == 1 && te[0] == b"chunked" {
             Framing::Chunked
@@ -823,7 +830,8 @@ fn reference(stream: &[u8], head_request: bool) -> RefRead {
         },
         Framing::UntilClose => (Some(rest.to_vec()), 0),
     };
-    RefRead::Msg(RefMsg { version11, framing, body, surplus, conn_close, conn_close_plain, conn_keep_alive, upgrade_ws_non101 })
+    let bodiless_with_framing = bodiless_status && !status101 && !head_request && (!cl.is_empty() || !te.is_empty());
+    RefRead::Msg(RefMsg { version11, framing, body, surplus, conn_close, conn_close_plain, conn_keep_alive, upgrade_ws_non101, bodiless_with_framing })
 }
 
 fn oracle(o: &Obs) -> Option<(String, String)> {
@@ -856,6 +864,8 @@ fn oracle(o: &Obs) -> Option<(String, String)> {
                     Some(b) if b != got => {
                         let sig = if m.upgrade_ws_non101 && got.is_empty() && matches!(m.framing, Framing::Length(_)) {
                             "non-101-upgrade-websocket-drops-content-length-body"
+                        } else if m.bodiless_with_framing {
+                            "body-read-after-bodiless-status"
                         } else {
                             "body-mismatch"
                         };
@@ -876,7 +886,10 @@ fn oracle(o: &Obs) -> Option<(String, String)> {
             let complete = m.body.is_some() && (m.framing != Framing::UntilClose || op.script.close);
             if complete && !m.upgrade_ws_non101 {
                 match &op.outcome {
-                    Outcome::BodyErr(_, e) | Outcome::SendErr(e) => {
+                    // (for a body-less status that announces a body the code's reading of the
+                    // following bytes is the known finding; what must not happen is that the mere
+                    // end of the connection is reported as a truncated body)
+                    Outcome::BodyErr(_, e) | Outcome::SendErr(e) if !m.bodiless_with_framing || e == "inc" => {
                         return Some((
                             "error-on-complete-well-formed-response".into(),
                             format!("request {}: {:?} body {} was sent completely but the client reported {}", op.id, m.framing, hex(m.body.as_ref().unwrap()), e),
@@ -1006,6 +1019,8 @@ impl Resp {
         let reason = match self.status {
             200 => "OK",
             204 => "No Content",
+            304 => "Not Modified",
+            103 => "Early Hints",
             404 => "Not Found",
             500 => "Internal Server Error",
             _ => "X",
@@ -1188,6 +1203,7 @@ fn gen(ctx: &Ctx) -> Vec<String> {
         (Resp { v11: false, status: 200, fr: Fr::Len(b"hey".to_vec()), conn: Some("keep-alive"), extra: vec![] }, 'g'),
         (Resp { v11: true, status: 204, fr: Fr::None, conn: None, extra: vec!["x-a: b"] }, 'g'),
         (Resp { v11: true, status: 200, fr: Fr::Len(vec![]), conn: None, extra: vec![] }, 'g'),
+        (Resp { v11: true, status: 304, fr: Fr::Len(b"abcd".to_vec()), conn: None, extra: vec![] }, 'g'),
         (Resp { v11: true, status: 200, fr: Fr::Len(b"head!".to_vec()), conn: None, extra: vec![] }, 'h'),
     ];
     for (resp, meth) in &bases {
@@ -1386,6 +1402,33 @@ fn gen(ctx: &Ctx) -> Vec<String> {
                 };
                 let tok = req_tok(0, 'g', "f", &script_tok(&segs, None, close || needs_close));
                 cases.push(format!("lim=1 {} {} {}", tok, good_follow(0), good_follow(0)));
+            }
+        }
+    }
+    // (F) statuses that cannot have a body (1xx, 204, 304) carrying Content-Length / chunked:
+    // announced bytes absent, partly sent, fully sent; close or keep
+    for status in [304u16, 204, 103] {
+        for (hdr, sent, complete) in [
+            ("content-length: 24\r\n", "", false),
+            ("content-length: 4\r\n", "1234", true),
+            ("content-length: 4\r\n", "12", false),
+            ("transfer-encoding: chunked\r\n", "3\r\nabc\r\n0\r\n\r\n", true),
+            ("transfer-encoding: chunked\r\n", "3\r\nab", false),
+            ("transfer-encoding: chunked\r\n", "", false),
+            ("", "", true),
+        ] {
+            let head = format!("HTTP/1.1 {} S\r\n{}\r\n", status, hdr);
+            let mut full = head.as_bytes().to_vec();
+            full.extend_from_slice(sent.as_bytes());
+            for close in [true, false] {
+                if !close && !complete {
+                    continue; // the client would wait for the announced bytes
+                }
+                for split in 0..2 {
+                    let segs = if split == 0 { vec![full.clone()] } else { rand_split(&mut rng, &full) };
+                    let tok = req_tok(0, 'g', "f", &script_tok(&segs, None, close));
+                    cases.push(format!("lim=1 {} {} {}", tok, good_follow(0), good_follow(0)));
+                }
             }
         }
     }
